@@ -112,6 +112,7 @@ tp_suite_find(uint16_t id)
 #define TP_KEY_RSA    0   /* RSA key, RSA issuer */
 #define TP_KEY_ECEC   1   /* EC P-256 key, EC issuer */
 #define TP_KEY_ECRSA  2   /* EC P-256 key, RSA issuer */
+#define TP_KEY_RSA_WEAK 3  /* RSA-768 key, RSA issuer (below the default minimum) */
 
 /* is the suite usable with this server key kind? */
 static inline int
@@ -376,6 +377,7 @@ typedef struct {
 	int seeder_mode;          /* 1 fixed (default), 2 fail, 3 none, 0 untouched */
 	int inject_entropy;       /* call br_ssl_engine_inject_entropy(seed) before reset */
 	int reuse_ctx;            /* do not re-initialise the context (resumption on same client) */
+	int mismatch_key;         /* server: private key that does not match the chain; client: same for the client certificate */
 	/* hooks for property-specific configuration just before reset */
 	void (*pre_reset)(void *ep, void *arg);
 	void *pre_reset_arg;
@@ -469,7 +471,11 @@ tp_ep_start(tp_ep *ep, const tp_cfg *cfg)
 			ep->eng = &ep->sc->eng;
 			switch (cfg->keykind) {
 			case TP_KEY_RSA:
-				br_ssl_server_init_full_rsa(ep->sc, tp_fx.ch_srv_rsa, 1, &tp_fx.srv_rsa.rsa);
+				br_ssl_server_init_full_rsa(ep->sc, tp_fx.ch_srv_rsa, 1,
+					cfg->mismatch_key ? &tp_fx.other_rsa.rsa : &tp_fx.srv_rsa.rsa);
+				break;
+			case TP_KEY_RSA_WEAK:
+				br_ssl_server_init_full_rsa(ep->sc, tp_fx.ch_weak_rsa, 1, &tp_fx.weak_rsa.rsa);
 				break;
 			case TP_KEY_ECEC:
 				if (cfg->use_ec384) {
@@ -477,12 +483,12 @@ tp_ep_start(tp_ep *ep, const tp_cfg *cfg)
 						BR_KEYTYPE_EC, &tp_fx.srv_ec384.ec);
 				} else {
 					br_ssl_server_init_full_ec(ep->sc, tp_fx.ch_srv_ecec, 1,
-						BR_KEYTYPE_EC, &tp_fx.srv_ecec.ec);
+						BR_KEYTYPE_EC, cfg->mismatch_key ? &tp_fx.other_ec.ec : &tp_fx.srv_ecec.ec);
 				}
 				break;
 			default:
 				br_ssl_server_init_full_ec(ep->sc, tp_fx.ch_srv_ecrsa, 1,
-					BR_KEYTYPE_RSA, &tp_fx.srv_ecrsa.ec);
+					BR_KEYTYPE_RSA, cfg->mismatch_key ? &tp_fx.other_ec.ec : &tp_fx.srv_ecrsa.ec);
 				break;
 			}
 			if (cfg->client_auth) {
@@ -511,10 +517,12 @@ tp_ep_start(tp_ep *ep, const tp_cfg *cfg)
 		}
 		if (cfg->role == 0 && cfg->client_auth == 1) {
 			br_ssl_client_set_single_rsa(ep->cc, tp_fx.ch_cli_rsa, 1,
-				&tp_fx.cli_rsa.rsa, br_rsa_pkcs1_sign_get_default());
+				cfg->mismatch_key ? &tp_fx.other_rsa.rsa : &tp_fx.cli_rsa.rsa,
+				br_rsa_pkcs1_sign_get_default());
 		} else if (cfg->role == 0 && cfg->client_auth == 2) {
 			br_ssl_client_set_single_ec(ep->cc, tp_fx.ch_cli_ec, 1,
-				&tp_fx.cli_ec.ec, BR_KEYTYPE_KEYX | BR_KEYTYPE_SIGN,
+				cfg->mismatch_key ? &tp_fx.other_ec.ec : &tp_fx.cli_ec.ec,
+				BR_KEYTYPE_KEYX | BR_KEYTYPE_SIGN,
 				BR_KEYTYPE_EC, br_ec_get_default(),
 				br_ecdsa_sign_asn1_get_default());
 		}
